@@ -6,6 +6,7 @@ package main
 //
 //	cp <C|CI|P|PI> <ints>: f ; f ; …            Compose / ComposeInterface / Pipe / PipeInterface
 //	cg <C|P> <k> <ints>: f ; f ; …              regrouped at k: X(X(fs[:k]...), X(fs[k:]...))
+//	ru <steps> <ints>: f ; f ; …                ONE slice fs reused by the steps C P I J g<k> h<k> x (comma separated)
 //	ad <adapter> <bound ints>: <ints>           one adapter call
 //	tr <kd> <ke> <mode>: <ints>                 Trampoline with the step family
 //	cu <G|I> <n>: c:<ints> ; d ; r ; i ; …      CurryDef script (Call / MarkDone / Result / IsDone)
@@ -292,6 +293,78 @@ func c20RunCG(variant string, k int, input []int, fs []func(...int) []int) strin
 		res += " again=" + c20ShowInts(again) + " flat=" + c20ShowInts(flat) + " rerun=" + c20ShowInts(rerun)
 	}
 	return res
+}
+
+// c20RunRU: one caller-owned slice fs (and its boxed twin bs), built once, spread into several combinator
+// calls (steps C P I J, g<k>/h<k> = regrouped over the sub-slices fs[:k], fs[k:], x = run everything built so
+// far); at the end every built function is run twice, then every element of fs and of bs is applied alone, so
+// a combinator that rearranges or overwrites the caller's slice is visible.
+func c20RunRU(script string, input []int, fs []func(...int) []int) string {
+	bs := c20BoxAll(fs)
+	var built []func() string
+	runOne := func(f func() []int) func() string {
+		return func() (out string) {
+			defer func() {
+				if r := recover(); r != nil {
+					out = "panic"
+				}
+			}()
+			return "ok " + c20ShowInts(f())
+		}
+	}
+	seg := func(fns []func() string) string {
+		parts := make([]string, len(fns))
+		for i, f := range fns {
+			parts[i] = f()
+		}
+		return strings.Join(parts, " | ")
+	}
+	var segs []string
+	for _, tok := range strings.Split(script, ",") {
+		switch {
+		case tok == "C":
+			f := fpgo.Compose(fs...)
+			built = append(built, runOne(func() []int { return f(input...) }))
+		case tok == "P":
+			f := fpgo.Pipe(fs...)
+			built = append(built, runOne(func() []int { return f(input...) }))
+		case tok == "I":
+			f := fpgo.ComposeInterface(bs...)
+			built = append(built, runOne(func() []int { return c20CallBoxed(f, input) }))
+		case tok == "J":
+			f := fpgo.PipeInterface(bs...)
+			built = append(built, runOne(func() []int { return c20CallBoxed(f, input) }))
+		case strings.HasPrefix(tok, "g"), strings.HasPrefix(tok, "h"):
+			k := c20Atoi(tok[1:], 0)
+			comb := fpgo.Compose[int]
+			if tok[0] == 'h' {
+				comb = fpgo.Pipe[int]
+			}
+			var f func(...int) []int
+			if 0 < k && k < len(fs) {
+				f = comb(comb(fs[:k]...), comb(fs[k:]...))
+			} else {
+				f = comb(fs...)
+			}
+			built = append(built, runOne(func() []int { return f(input...) }))
+		case tok == "x":
+			segs = append(segs, seg(built))
+		}
+	}
+	segs = append(segs, seg(built), seg(built))
+	own := make([]func() string, len(fs))
+	for i := range fs {
+		i := i
+		own[i] = runOne(func() []int { return fs[i](input...) })
+	}
+	segs = append(segs, seg(own))
+	ownB := make([]func() string, len(bs))
+	for i := range bs {
+		i := i
+		ownB[i] = runOne(func() []int { return c20CallBoxed(bs[i], input) })
+	}
+	segs = append(segs, seg(ownB))
+	return strings.Join(segs, " # ")
 }
 
 // ---------------------------------------------------------------------------------------------
@@ -1095,6 +1168,8 @@ func c20Run(line string) string {
 		return c20RunCP(head[1], c20ParseInts(head[2]), fns())
 	case head[0] == "cg" && len(head) == 4:
 		return c20RunCG(head[1], c20Atoi(head[2], 0), c20ParseInts(head[3]), fns())
+	case head[0] == "ru" && len(head) == 3:
+		return c20RunRU(head[1], c20ParseInts(head[2]), fns())
 	case head[0] == "ad" && len(head) == 3:
 		return c20RunAdapter(head[1], c20ParseInts(head[2]), c20ParseInts(body))
 	case head[0] == "tr" && len(head) == 4:
